@@ -36,8 +36,9 @@ CHECKS = {
             "Trusted: sys.monitoring LINE accounting as termination proxy (budget 2e5+2e3*size, re-run at 50x before calling it a hang).", "3/C04"),
     "C06": ("differential property-based testing (Hypothesis): every generated declaration built twice (data_first_search on/off), same input through both",
             "hypothesis",
-            "Exploration: generated data classes over the Field/Options product with inputs using names, aliases, case variants, "
-            "duplicates and extra keys; outcomes of the two strategies compared (equal values; same failure kind via the collected error sets).",
+            "Exploration: generated data classes over the Field/Options product (Schema, DataClass, @dataclass) and decorated functions (five parameter kinds, aliases, "
+            "case-insensitive names, **kwargs) with inputs using names, aliases, case variants, duplicates and extra keys; outcomes of the two strategies compared "
+            "(equal values; same failure kind via the collected error sets).",
             "Trusted: vf/oracle.py equal/plain; the notion of 'same kind' = (exception class, item) membership in the other strategy's collected set.", "3/C06"),
     "C09": ("property-based testing (Hypothesis): combinator trees in drawn argument orders against truth-table semantics computed from the standalone verdicts of the arguments; permutation metamorphic relation for xor; construction algebra",
             "hypothesis",
